@@ -106,6 +106,32 @@ def flat(node, v, out):
             flat(sub, getattr(v, name), out)
 
 
+def scribble(node, v):
+    """
+    The caller owns a decoded object: overwrite every array it holds IN PLACE (all bits set) after its value has been reported.
+    Whatever a later decode yields must not depend on that (arrays handed out must not alias state that outlives the call).
+    """
+    k = node["k"]
+    if k in ("farr", "varr"):
+        if node["e"]["k"] in ("bool", "int", "uint", "float"):
+            try:
+                if hasattr(v, "fill"):
+                    v.fill(1 if node["e"]["k"] == "bool" else -1 if node["e"]["k"] == "int" else 255 if node["e"]["k"] == "uint" else 1.0)
+            except (ValueError, TypeError, OverflowError):  # read-only view, or a dtype that refuses the value: nothing to scribble
+                pass
+        else:
+            for e in v:
+                scribble(node["e"], e)
+    elif k == "union":
+        for name, sub in node["fields"]:
+            x = getattr(v, name)
+            if x is not None:
+                scribble(sub, x)
+    elif k == "struct":
+        for name, sub in node["fields"]:
+            scribble(sub, getattr(v, name))
+
+
 def main():
     schema = json.load(open(sys.argv[1]))["types"]
     sys.path.insert(0, sys.argv[2])
@@ -137,6 +163,7 @@ def main():
                     out = []
                     flat(node, obj, out)
                     print("D 0 0 %s" % words_hex(out))
+                    scribble(node, obj)
             elif tok[0] == "M":
                 cls = cls_of(node)
                 out = ["M", "extent=%d" % cls._EXTENT_BYTES_]
